@@ -540,7 +540,8 @@ ExtOK == xn < MaxExt /\ (IF cur = 0 THEN TRUE ELSE stg[cur] \in {"park", "park2"
 Ext(x) ==
   /\ x \in Exts /\ x.k # "cancel"
   \* under the run-loop discipline time is taken to pass only while select blocks
-  /\ IF Loop /\ x.k = "xt" THEN sel = "wait" /\ xn' = xn ELSE ExtOK /\ xn' = xn + 1
+  \* (up to the deadline of the call: the call returns before more time passes)
+  /\ IF Loop /\ x.k = "xt" THEN sel = "wait" /\ idl >= 0 /\ now < idl /\ xn' = xn ELSE ExtOK /\ xn' = xn + 1
   /\ CASE x.k = "xw" ->   \* another process writes b units into pipe a
             /\ open[WFd(x.a)] /\ open[RFd(x.a)] /\ occ[x.a] + x.b <= Cap
             /\ occ' = [occ EXCEPT ![x.a] = @ + x.b]
@@ -571,12 +572,16 @@ Ext(x) ==
   /\ Emit(<<E(x.k, 0, x.a, x.b, "", <<>>, <<>>, <<>>)>>)
 
 -----------------------------------------------------------------------------
+IONew(t) == \E op \in Ops : op.k \in {"R", "W", "WA"} /\ IO(t, op, TRUE)
+IORetry(t) == stg[t] = "io" /\ IO(t, opr[t], FALSE)
+BeginOp(t) == \E op \in Ops : op.k \notin {"R", "W", "WA"} /\ Begin(t, op)
+CancelTask(t) == "cancel" \in {x.k : x \in Exts} /\ Cancel(t)
+
 TaskNext == \E t \in Tasks :
               \/ Poll(t) \/ Park(t) \/ D2(t) \/ Cont(t) \/ Finish(t)
-              \/ (stg[t] = "io" /\ IO(t, opr[t], FALSE))
-              \/ \E op \in Ops : IF op.k \in {"R", "W", "WA"} THEN IO(t, op, TRUE) ELSE Begin(t, op)
+              \/ IORetry(t) \/ IONew(t) \/ BeginOp(t)
 SelNext == (\E pk \in BOOLEAN : SelBegin(pk)) \/ SelCall \/ SelCallNonAtomic \/ SelWake \/ SelEnd
-ExtNext == (\E x \in Exts : Ext(x)) \/ (\E t \in Tasks : "cancel" \in {x.k : x \in Exts} /\ Cancel(t))
+ExtNext == (\E x \in Exts : Ext(x)) \/ (\E t \in Tasks : CancelTask(t))
 Next == TaskNext \/ SelNext \/ ExtNext
 
 Spec == Init /\ [][Next]_vars
